@@ -51,6 +51,14 @@ def build_cases(ctx, n):
     for alg, enc in (("A128KW", "A128GCM"), ("dir", "A128CBC-HS256"), ("RSA-OAEP", "A256GCM")):
         for ser in ("flat", "general"):
             valid.append(E.build(rng, alg, enc, ser, E.DEFLATE_LOOKING, aad=rng.choice([None, b"aad"]), kn=E.key_name(alg, enc, rng)))
+    # always present: plaintexts whose LAST octets look like PKCS #7 padding of their own (value k at a length of 16-k mod 16,
+    # a run of the pad value, a whole block of 0x10): the plaintext returned is exactly the one encrypted, nothing stripped
+    tails = [b"fifteen octets" + b"\x01", b"ten octets" + b"\x03\x03\x03", b"twelve oct" + b"\x04\x04", b"\x10" * 16, b"\x01" * 15, b"\x02" * 30,
+             b"x" * 31 + b"\x01" * 16, b"\x08" * 8, b"\x00" * 15 + b"\x01", b"\x0f", b"\x10" * 32]
+    for enc in ("A128CBC-HS256", "A192CBC-HS384", "A256CBC-HS512"):
+        for i, pt in enumerate(tails):
+            alg = ("dir", "A128KW", "A256KW")[i % 3]
+            valid.append(E.build(rng, alg, enc, ("compact", "flat", "general")[i % 3], pt, kn=E.key_name(alg, enc, rng), aad=(b"aad" if i % 2 and i % 3 else None)))
     cases = list(valid)
     for c in valid:
         cases += E.tamper(c, rng, valid)
